@@ -61,6 +61,41 @@ package cedar
 //@   ensures ps != nil && !isnil(ps.policies) && len(ps.policies) == 0
 //@   ensures forall id PolicyID :: !has(ps.policies, id)
 
+// Loading a document: the policies get the ids policy0, policy1, .. in document order.
+// (The decimal rendering of distinct non-negative numbers is distinct: assumed.)
+//@ spec func policyN(i int) PolicyID = PolicyID(sprintf("policy%d", i))
+//@ axiom policyN_injective: forall i int, j int :: { policyN(i), policyN(j) } (i >= 0 && j >= 0 && policyN(i) == policyN(j)) ==> i == j
+//@ func (Policy) SetFilename
+//@   props C20
+//@   modifies p
+//@   requires p != nil && p.ast != nil
+//@   ensures p.ast != nil && p.ast.Position.Filename == fileName
+//@ func (PolicyList) UnmarshalCedar
+//@   modifies p
+//@   results err
+//@   trusted
+//@   ensures err == nil ==> (forall i int :: (0 <= i && i < len(*p)) ==> ((*p)[i] != nil && (*p)[i].ast != nil))
+//@ func NewPolicyListFromBytes
+//@   props C20
+//@   pure
+//@   results list, err
+//@   ensures err == nil ==> (forall i int :: (0 <= i && i < len(list)) ==> (list[i] != nil && list[i].ast != nil && list[i].ast.Position.Filename == fileName))
+//@   loop 1
+//@     invariant len(policySlice) == len(old(policySlice))
+//@     invariant forall i int :: (0 <= i && i < len(policySlice)) ==> (policySlice[i] != nil && policySlice[i].ast != nil)
+//@     invariant forall i int :: (0 <= i && i < $i) ==> policySlice[i].ast.Position.Filename == fileName
+//@ func NewPolicySetFromBytes
+//@   props C20
+//@   results ps, err
+//@   ensures err == NewPolicyListFromBytes#1(fileName, document)
+//@   ensures err == nil ==> (ps != nil && len(ps.policies) == len(NewPolicyListFromBytes#0(fileName, document)))
+//@   ensures err == nil ==> (forall i int :: (0 <= i && i < len(NewPolicyListFromBytes#0(fileName, document))) ==> (has(ps.policies, policyN(i)) && ps.policies[policyN(i)] == NewPolicyListFromBytes#0(fileName, document)[i]))
+//@   ensures err == nil ==> (forall id PolicyID :: has(ps.policies, id) ==> (exists i int :: 0 <= i && i < len(NewPolicyListFromBytes#0(fileName, document)) && id == policyN(i)))
+//@   loop 1
+//@     invariant !isnil(policyMap) && len(policyMap) == $i
+//@     invariant forall id PolicyID :: has(policyMap, id) == (exists j int :: 0 <= j && j < $i && id == policyN(j))
+//@     invariant forall j int :: (0 <= j && j < $i) ==> policyMap[policyN(j)] == policySlice[j]
+
 //@ func (PolicySet) Get
 //@   props C20
 //@   results r
